@@ -597,6 +597,7 @@ type mc struct {
 	scratch  []byte                      // the one reused "receive buffer" all GetValueBytes keys are slices of
 	scratchN int
 	getN     int
+	saveN    int
 }
 
 func sortItems(items []pcache.VerifItem) {
@@ -845,8 +846,42 @@ func fileOrder(file []byte) string {
 	return strings.Join(ss, ",")
 }
 
+// failedSaveFirst: a Save whose first write to the file fails, immediately before the Save the op sequence asks for (which is
+// then the RETRY). Nothing reaches the file (the one write is refused) and no cache content changes, so model and op stream
+// are unaffected; what the oracle demands is that the failure is not remembered as a success: the retry must not answer
+// "nothing to save" (round 7: lastSavedVersion advanced before the write).
+func (x *mc) failedSaveFirst() {
+	items, _, _, ver, last := x.c.VerifSnapshot()
+	if len(items) == 0 || ver == last {
+		return
+	}
+	st := x.c.VerifStorage()
+	orig := st.WriteAt
+	before := digest(*x.fp)
+	st.WriteAt = func(off int64, data []byte) error { return errors.New("injected write failure") }
+	ok, err := x.c.Save()
+	st.WriteAt = orig
+	h.Stat(fmt.Sprintf("mc.save.injected-failure.%v.%s", ok, chunkErrName(err)), 1)
+	if err == nil || ok {
+		h.Viol("save-failure-swallowed", "Save returned ok=%v err=%v although every write to the file was refused (%d elements to save)", ok, err, len(items))
+		return
+	}
+	if digest(*x.fp) != before {
+		h.Viol("harness-selfcheck", "the refused write changed the file")
+	}
+	_, _, _, ver2, last2 := x.c.VerifSnapshot()
+	if ver2 == last2 {
+		h.Viol("save-failure-forgotten", "after a Save that failed (%v) the cache counts version %d as saved: the retry will answer nothing-to-save while the file does not hold the %d elements", err, ver2, len(items))
+	}
+	h.NonTrivial("failed-save-then-retry")
+}
+
 func (x *mc) save() {
 	guard(func() {
+		x.saveN++
+		if x.saveN%3 == 0 {
+			x.failedSaveFirst()
+		}
 		ok, err := x.c.Save()
 		order := "sorted"
 		if !x.det && ok {
